@@ -88,12 +88,13 @@ BASE = {'Filter': {}, 'Util': {'sources': 'tcp://localhost'}, 'VideoIn': {'outpu
         'Webvis': {'sources': 'tcp://localhost'}, 'REST': {'outputs': 'tcp://*'}, 'Recorder': {'sources': 'tcp://localhost', 'outputs': 'file:///tmp/rec.json'},
         'ImageIn': {'outputs': 'tcp://*', 'sources': 'file:///tmp/imgs'}, 'ImageOut': {'sources': 'tcp://localhost', 'outputs': 'file:///tmp/out_%d.jpg'}}
 NATIVE = {'VideoIn': 'sources', 'VideoOut': 'outputs'}      # options documented to take a URI with user:password@ (MQTTOut's mqtt:// form has no userinfo part)
-SHAPES = ['str', 'comma', 'comma_nospace', 'list', 'tuple', 'dict', 'list_of_dict', 'dict_of_list', 'deep']
+SHAPES = ['str', 'comma', 'comma_nospace', 'list', 'tuple', 'dict', 'list_of_dict', 'dict_of_list', 'deep', 'list_twice', 'dict_twice']
 
 
 def shape(kind, uri):
     return {'str': uri, 'comma': f'tcp://x, {uri}', 'comma_nospace': f'{uri},{uri}', 'list': ['a', uri], 'tuple': ('a', uri), 'dict': {'url': uri},
-            'list_of_dict': [{'source': uri, 'topic': 'main'}], 'dict_of_list': {'cams': [uri]}, 'deep': {'a': [{'b': (uri,)}]}}[kind]
+            'list_of_dict': [{'source': uri, 'topic': 'main'}], 'dict_of_list': {'cams': [uri]}, 'deep': {'a': [{'b': (uri,)}]},
+            'list_twice': [[uri], [uri]], 'dict_twice': {'a': {'url': uri}, 'b': {'url': uri}}}[kind]
 
 
 class LogCapture:
@@ -113,6 +114,9 @@ def structure_scenario(planted=None):
         if where == 0:
             kind = SHAPES[e.choice('shape', len(SHAPES))]
             cfg['extra_opt'] = shape(kind, URI)
+            dup = e.choice('second_option', 3)     # 0: none, 1: a second option holding an equal value, 2: a second option holding the very same object
+            if dup == 1: cfg['fallback_opt'] = shape(kind, URI)
+            if dup == 2: cfg['fallback_opt'] = cfg['extra_opt']
         else:
             kind = ['str', 'list', 'list_of_dict'][e.choice('shape', 3)]
             v = shape(kind, URI)
@@ -206,7 +210,7 @@ def harnesses(tier):
                 assumptions=['characters outside printable ASCII are not generated', 'provenance: a character of the output "is" the password character it was copied from'],
                 real_replay=regex_real_replay, budget_s=900),
         Harness('c15.structure', structure_scenario(), twin=structure_scenario(planted=True),
-                bounds={'classes': CLASSES, 'position': 'free-form option in 9 container shapes (str, comma lists, list, tuple, dict, list of dict, dict of list, depth 3) or the filter\'s own URI option (str / list / record)',
+                bounds={'classes': CLASSES, 'position': 'free-form option in 11 container shapes (str, comma lists, list, tuple, dict, list of dict, dict of list, depth 3, the same nested list / dict twice in one value), alone or with a second option holding an equal value or the same object, or the filter\'s own URI option (str / list / record)',
                         'secret': 'concrete token'}, functions=fn2, stubs=['capturing logger', 'capturing lineage emitter'],
                 assumptions=['shapes are enumerated by symbolic choice variables; the secret is a concrete token (string contents are not symbolic here)'], budget_s=600),
         Harness('c15.video_meta', video_meta_scenario, bounds={'uris': 5, 'reader options': 4, 'stream fps': 'fixed / unknown'}, functions=fn2, stubs=[], assumptions=[], budget_s=60),
